@@ -8,9 +8,24 @@ import (
 	"encoding/binary"
 	"fmt"
 	"os"
+	"runtime/pprof"
 	"strings"
 	"testing"
+	"time"
 )
+
+// vfE4CPUProfiling: is a CPU profile running in this process? (StartCPUProfile fails iff one is.)
+func vfE4CPUProfiling() bool {
+	if err := pprof.StartCPUProfile(vfE4Discard{}); err != nil {
+		return true
+	}
+	pprof.StopCPUProfile()
+	return false
+}
+
+type vfE4Discard struct{}
+
+func (vfE4Discard) Write(b []byte) (int, error) { return len(b), nil }
 
 const vfE4Bystander = "hA:4151"
 
@@ -350,7 +365,7 @@ func TestVerifE4Hostile(t *testing.T) {
 	if variant == "" {
 		variant = "fixed"
 	}
-	env := vfE4Start(false, []string{"t", "e#ephemeral", "x1", "zz"})
+	env := vfE4Start(os.Getenv("VERIF_INPROC") != "1", []string{"t", "e#ephemeral", "x1", "zz"}) // queries through the real listener
 	env.plainID = true // the bystander is well-behaved: the attack comes from the spoof / stream ops
 	defer env.Stop()
 	out := vfOpen(fmt.Sprintf("hostile_%d", shard))
@@ -408,7 +423,9 @@ func TestVerifE4Hostile(t *testing.T) {
 // TestVerifE4HttpSweep: every route x method x argument subset (and value class).
 func TestVerifE4HttpSweep(t *testing.T) {
 	full := os.Getenv("VERIF_FULL") == "1"
-	env := vfE4Start(os.Getenv("VERIF_REALHTTP") == "1", []string{"t", "e#ephemeral", "new1", "zz"})
+	// every request goes through the daemon's REAL listener and the httpServer instance `Main` created
+	// (VERIF_INPROC=1: ServeHTTP on a second server object, for comparison only)
+	env := vfE4Start(os.Getenv("VERIF_INPROC") != "1", []string{"t", "e#ephemeral", "new1", "zz"})
 	defer env.Stop()
 	out := vfOpen("sweep")
 	defer out.Close()
@@ -487,6 +504,123 @@ func TestVerifE4HttpSweep(t *testing.T) {
 			emit(m, p, "0", "t", "c", vfE4Bystander)
 		}
 	}
+	// ---- non-canonical paths (audit C11): httprouter cleans / case-folds / repairs the trailing slash and REDIRECTS
+	// (301 GET, 307 other methods with a tree) instead of answering 404; never a handler, never an effect.
+	cls := map[string]int{}
+	var paths []string
+	seenP := map[string]bool{}
+	for _, a := range api {
+		if !seenP[a.p] {
+			seenP[a.p] = true
+			paths = append(paths, a.p)
+		}
+	}
+	paths = append(paths, "/debug/pprof", "/debug/pprof/cmdline", "/debug/pprof/symbol", "/debug/pprof/profile", "/debug/pprof/heap",
+		"/debug/pprof/goroutine", "/debug/pprof/block", "/debug/pprof/threadcreate")
+	title := func(p string) string {
+		b := []byte(p)
+		for i := 1; i < len(b); i++ {
+			if b[i-1] == '/' && b[i] >= 'a' && b[i] <= 'z' {
+				b[i] -= 32
+			}
+		}
+		return string(b)
+	}
+	variant := func(p string) [][2]string {
+		return [][2]string{{"trailing-slash", p + "/"}, {"upper", strings.ToUpper(p)}, {"title", title(p)}, {"double-slash", "/" + p},
+			{"inner-double-slash", strings.Replace(p[1:], "/", "//", 1)}, {"dot", "/." + p}, {"dotdot", "/x/.." + p}, {"final-dot", p + "/."},
+			{"two-trailing", p + "//"}, {"upper-trailing", strings.ToUpper(p) + "/"}, {"dotdot-past-root", "/../.." + p}, {"suffix", p + "x"},
+			{"final-dotdot", p + "/y/.."}}
+	}
+	vmethods := []string{"GET", "POST", "PUT", "OPTIONS", "HEAD", "DELETE"}
+	k := 0
+	for _, p := range paths {
+		for _, v := range variant(p) {
+			vp := v[1]
+			if !strings.HasPrefix(vp, "/") {
+				vp = "/" + vp
+			}
+			for _, m := range vmethods {
+				k++
+				if !full && m != "GET" && m != "POST" && k%3 != 0 {
+					continue // quick: the methods without a tree on every third variant
+				}
+				cls["variant:"+v[0]]++
+				emit(m, vp, "0", "t", "c", vfE4Bystander)
+			}
+		}
+	}
+	for _, p := range []string{"/topic/", "/channel/", "/debug/", "/debug/pprof/", "/topic", "/channel", "//", "/.", "/..", "/./", "/lookup/../lookup",
+		"/topic/../topic/delete", "/TOPIC/DELETE/", "/Debug/Pprof/Heap/", "/lookup/lookup", "/topics/x", "/nodes//", "/p", "/pin", "/pingg", "/debug/ppro", "/debug/pprof/hea"} {
+		for _, m := range vmethods {
+			cls["variant:prefix-or-near-miss"]++
+			emit(m, p, "0", "t", "c", vfE4Bystander)
+		}
+	}
+	// `OPTIONS *` (other methods with `*` are refused by net/http itself, 400, before any handler)
+	cls["variant:star"]++
+	emit("OPTIONS", "*", "0", "t", "c", vfE4Bystander)
+	// ---- pprof rows with odd arguments: the answer is one of a SET (driver = acceptor, `obs=`); direct oracle on the
+	// text of every non-200 answer. (`profile` without a valid `seconds` would run for 30 s: not sent.)
+	pp := func(m, p, q string, bg bool) {
+		if count%60 == 0 {
+			out.Case("reset", env.Exec("reset"))
+			vfE4SetupBystander(env, out, id)
+			id++
+		}
+		count++
+		var done chan int
+		if bg {
+			// another CPU profile is running while the request is made: the documented pprof-busy case
+			done = make(chan int, 1)
+			go func() {
+				c, _ := env.httpDo("GET", "/debug/pprof/profile", "seconds=1")
+				done <- c
+			}()
+			for i := 0; i < 300 && !vfE4CPUProfiling(); i++ {
+				time.Sleep(time.Millisecond)
+			}
+		}
+		line := fmt.Sprintf("%d raw %s %s 0 %s %s %s", env.vnow, m, p, arg("t"), arg("c"), arg(vfE4Bystander))
+		if q != "" {
+			line += " q=" + vfHex([]byte(q))
+		}
+		line, res := env.ExecX(line)
+		out.Case(line, res)
+		st := strings.Fields(res)[0]
+		cls["pprof:"+p[len("/debug/pprof"):]+"?"+q+":"+st]++
+		body := strings.TrimSpace(string(env.lastBody))
+		if len(body) > 120 {
+			body = body[:120]
+		}
+		switch {
+		case st == "status=200" || m != "GET":
+		case st == "status=400" && strings.Contains(q, "seconds=") && (strings.Contains(body, "seconds")):
+		case st == "status=500" && p == "/debug/pprof/profile" && bg && strings.HasPrefix(body, "Could not enable CPU profiling"):
+		default:
+			fmt.Printf("E4-ORACLE pprof-undocumented-answer %s %s?%s -> %s %q | %s\n", m, p, q, st, body, line)
+		}
+		if bg {
+			cls[fmt.Sprintf("pprof:background-profile:%d", <-done)]++
+		}
+	}
+	oddq := []string{"", "seconds=x", "seconds=0", "seconds=-1", "seconds=", "seconds=99999999999999999999", "seconds=1&debug=1", "debug=1", "debug=2",
+		"debug=x", "gc=1", "gc=x&debug=1", "%zz", "seconds=x&seconds=1"}
+	for _, p := range []string{"/debug/pprof/heap", "/debug/pprof/goroutine", "/debug/pprof/block", "/debug/pprof/threadcreate"} {
+		for _, q := range oddq {
+			pp("GET", p, q, false)
+		}
+	}
+	for _, p := range []string{"/debug/pprof/cmdline", "/debug/pprof/symbol"} {
+		for _, q := range []string{"", "seconds=x", "debug=1", "0x1"} {
+			pp("GET", p, q, false)
+		}
+	}
+	pp("POST", "/debug/pprof/symbol", "", false)
+	pp("GET", "/debug/pprof/heap", "seconds=1", false)    // a real delta profile (1 s)
+	pp("GET", "/debug/pprof/profile", "seconds=1", true)  // while another CPU profile runs: 500 is the documented answer
+	pp("GET", "/debug/pprof/profile", "seconds=1", false) // undisturbed: 200
+	vfE4PrintHist("sweep-classes", cls)
 	fmt.Printf("E4-SWEEP requests=%d lines=%d\n", count, out.N)
 	vfE4PrintHist("sweep", env.hist)
 }
